@@ -192,7 +192,8 @@ Fixpoint set_nth {A} (l : list A) (n : nat) (x : A) : list A :=
   end.
 
 (* [InMemDicomObject::apply]: the loop over the selector steps, mutating in place.
-   The receiver's state after a failure is part of the result. *)
+   The receiver's state after a failure is part of the result.
+   (For constructive actions the loop only runs after [check_path] below succeeded.) *)
 Fixpoint apply_sel (steps : list (N * N)) (leaf : N) (a : action) (o : obj) : outcome unit * obj :=
   match steps with
   | [] => apply_leaf leaf a o
@@ -228,9 +229,36 @@ Fixpoint apply_sel (steps : list (N * N)) (leaf : N) (a : action) (o : obj) : ou
     end
   end.
 
+(* [check_constructive_path]: every nested step can be resolved or created; nothing is changed.
+   A data set yet to be created behaves like the empty one ([obj = None] in the code). *)
+Fixpoint check_path (steps : list (N * N)) (o : obj) : outcome unit :=
+  match steps with
+  | [] => Ok tt
+  | (t, item) :: rest =>
+    match get o t with
+    | None =>
+        let vr := dict_vr t VR_UN in
+        if negb (vr =? VR_SQ) && negb (vr =? VR_UN) then Err e_not_a_seq
+        else if item =? 0 then check_path rest [] else Err e_missing_seq
+    | Some (_, _, VSeq items) =>
+        match nth_error items (N.to_nat item) with
+        | Some it => check_path rest it
+        | None => if item =? N.of_nat (length items) then check_path rest [] else Err e_missing_seq
+        end
+    | Some _ => Err e_not_a_seq
+    end
+  end.
+
 Definition op : Type := list (N * N) * N * action.
 Definition apply (o : obj) (x : op) : outcome unit * obj :=
-  let '(steps, leaf, a) := x in apply_sel steps leaf a o.
+  let '(steps, leaf, a) := x in
+  if constructive a then
+    match check_path steps o with
+    | Ok _ => apply_sel steps leaf a o
+    | Err e => (Err e, o)
+    | Panic w => (Panic w, o)
+    end
+  else apply_sel steps leaf a o.
 Definition apply_all (ops : list op) (o : obj) : obj := fold_left (fun o x => snd (apply o x)) ops o.
 End WithDict.
 
